@@ -330,7 +330,9 @@ impl MemoryMappedArchive {
         let start = offset;
         let end = offset.saturating_add(len as u64);
 
-        if start >= self.file_size {
+        // the empty range at `file_size` is a valid range (as for slices and for the other readers);
+        // a non-empty read starting there is refused by the end check below
+        if start > self.file_size {
             return Err(Error::invalid_bounds(format!(
                 "Read offset {} beyond file size {}",
                 start, self.file_size
